@@ -405,6 +405,67 @@ func stackRun(w *World) {
 			return
 		}
 	}
+	if !lazy && t.Flag(1, 4) {
+		// a stream that is opened while an Update from another client is in progress: whichever way the two interleave
+		// (the handler goroutines are scheduled too in lazy runs), once both have returned and everything has come to
+		// rest the stream must have arrived at the value Get returns - through its seed or through the update
+		var (
+			resp proto.Message
+			uerr error
+			st   *stackStream
+		)
+		w.Go("race-update", false, func(task *Task) {
+			req := newMsg(tr.update.Input())
+			setName(req, dev)
+			val := newMsg(tr.resource)
+			fillMessage(val.ProtoReflect(), p, 2)
+			req.ProtoReflect().Set(tr.updField, protoreflect.ValueOfMessage(val.ProtoReflect()))
+			resp = newMsg(tr.update.Output())
+			uerr = conn.Invoke(context.Background(), full(tr.update), req, resp)
+		})
+		w.Go("race-pull", false, func(task *Task) { st = openPull(false, false) })
+		w.Go("race-judge", false, func(task *Task) {
+			task.Settle("race")
+			for k := 0; k < 3 && st == nil; k++ {
+				task.Settle("race")
+			}
+			if st == nil {
+				return // reported as stuck below
+			}
+			st.mu.Lock()
+			serr := st.err
+			st.mu.Unlock()
+			after, gerr := doGet(nil, false)
+			if gerr != nil {
+				bad("get-failed", fmt.Sprintf("Get failed: %v", gerr))
+				return
+			}
+			if serr != nil {
+				bad("pull-failed", fmt.Sprintf("Pull ended at once: %v", serr))
+				return
+			}
+			got := st.snapshot()
+			last := newMsg(tr.resource)
+			if len(got) > 0 {
+				last = got[len(got)-1].ProtoReflect().Get(tr.changeValue).Message().Interface()
+			}
+			if uerr == nil && significantlyDifferent(last.ProtoReflect(), after.ProtoReflect(), 1) && !equalModuloListOrder(last, after) {
+				bad("update-not-streamed", fmt.Sprintf("a Pull was opened while Update -> %v was in progress; both have returned and the system is at rest: Get returns %v but the stream (reader in Recv) has received %v", resp, after, got))
+			}
+		})
+		w.Run()
+		if w.truncated {
+			return
+		}
+		if w.Deadlocked || len(w.Unfinished(false)) > 0 {
+			bad("rpc-stuck", "an Update and a Pull opened at the same time did not both return: "+strings.Join(w.Unfinished(true), ","))
+			return
+		}
+		if st != nil {
+			streams = append(streams, st)
+		}
+		w.Fault("race-open")
+	}
 	if t.Flag(1, 3) && len(topFields) > 0 {
 		// a second client that keeps reading with read masks while the first one works: nothing it does may change what
 		// the first client is entitled to see
